@@ -165,11 +165,11 @@ func c05R2(c *Ctx) {
 	p := c.P
 	// receiver side: the too-low handler
 	var tooLowH, seqResetH *ssa.Function
+	if proc := rejectProcessor(p); proc != nil {
+		tooLowH = tooLowHandler(p, proc)
+	}
 	for _, fn := range p.FuncsIn(modPath) {
-		switch fn.Name() {
-		case "doTargetTooLow":
-			tooLowH = fn
-		case "handleSequenceReset":
+		if len(getRoles(p).storeCalls(fn, "SetNextTargetMsgSeqNum")) > 0 && !(fn.Object() != nil && fn.Object().Exported() && fn.Signature.Recv() == nil) {
 			seqResetH = fn
 		}
 	}
